@@ -108,9 +108,8 @@ theorem file_step_inv {s : FileStore} {r : Ref} {op : Op} (h : FInv s r) (hc : a
         exact ⟨by simpa [FileStore.step] using hsh'.entries, by simpa [FileStore.step] using hsh'.recs,
           by simpa [FileStore.step] using hsh'.endPos, by simpa [FileStore.step] using hsh'.hole⟩
       · rw [hm, maxKey_append]
-        simp only [FileStore.step, List.isEmpty_cons, Bool.false_eq_true, if_false, batchMax_eq_maxKey]
-        have : e.idx ≤ maxKey (e :: rest) := le_maxKey (by simp)
-        omega
+        simp only [FileStore.step, List.isEmpty_cons, Bool.false_eq_true, if_false, batchMax_eq_maxKey,
+          appendAll_last, hlast]
       · rw [hm]; exact sorted_append hsort hk ha
       · rw [hm]; intro x hx
         rcases List.mem_append.mp hx with hx | hx
@@ -233,42 +232,28 @@ structure RInv (s : RocksStore) (r : Ref) : Prop where
 theorem rinv_empty : RInv RocksStore.empty Ref.empty :=
   ⟨rfl, rfl, rfl, List.Pairwise.nil, by simp [Ref.empty]⟩
 
-theorem rocks_step_inv {s : RocksStore} {r : Ref} {op : Op} (h : RInv s r) (hc : appendOnly r op = true) :
+theorem rocks_step_inv {s : RocksStore} {r : Ref} {op : Op} (h : RInv s r) (hc : contract r op = true) :
     RInv (s.step op) (r.step op) := by
   obtain ⟨hdb, hlast, hb, hsort, hpos⟩ := h
   cases op with
   | persist es =>
-    simp only [appendOnly, contract, Bool.and_eq_true] at hc
-    obtain ⟨⟨hasc, hall⟩, hfirst⟩ := hc
-    cases es with
-    | nil => exact ⟨by simp [RocksStore.step, Ref.step, hdb], by simp [RocksStore.step, Ref.step, insertAll, batchMax, hlast],
-        by simp [RocksStore.step, Ref.step, hb], by simpa [Ref.step, insertAll] using hsort, by simpa [Ref.step, insertAll] using hpos⟩
-    | cons e rest =>
-      simp only [decide_eq_true_eq] at hfirst
-      have ha : ascFrom (maxKey r.m) (e :: rest) :=
-        ascFrom_of_ascending hasc (fun e' he' => by simp at he'; subst he'; exact hfirst)
-      have hk : ∀ x ∈ r.m, x.idx ≤ maxKey r.m := fun x hx => le_maxKey hx
-      have hm : (r.step (.persist (e :: rest))).m = r.m ++ (e :: rest) := by
-        simp only [Ref.step]; exact insertAll_append hk ha
-      have hle : e.idx ≤ maxKey (e :: rest) := le_maxKey (by simp)
-      refine ⟨by simp [RocksStore.step, Ref.step, hdb], ?_, by simp [RocksStore.step, Ref.step, hb], ?_, ?_⟩
-      · rw [hm, maxKey_append]
-        simp only [RocksStore.step, batchMax_eq_maxKey]
-        have : maxKey (e :: rest) > 0 := by omega
-        simp only [this, if_true]; omega
-      · rw [hm]; exact sorted_append hsort hk ha
-      · rw [hm]; intro x hx
-        rcases List.mem_append.mp hx with hx | hx
-        · exact hpos x hx
-        · exact all_pos_of hall x hx
+    simp only [contract, Bool.and_eq_true] at hc
+    obtain ⟨_, hall⟩ := hc
+    refine ⟨by simp [RocksStore.step, Ref.step, hdb], ?_, by simp [RocksStore.step, Ref.step, hb], ?_, ?_⟩
+    · simp only [RocksStore.step, Ref.step, hlast, batchMax_eq_maxKey, maxKey_insertAll]
+    · simp only [Ref.step]; exact sorted_insertAll es hsort
+    · simp only [Ref.step]; intro x hx
+      rcases mem_insertAll es hx with hx | hx
+      · exact all_pos_of hall x hx
+      · exact hpos x hx
   | truncate f =>
-    simp only [appendOnly, contract] at hc
+    simp only [contract] at hc
     refine ⟨?_, ?_, by simp [RocksStore.step, Ref.step, hb], below_sorted hsort f,
       fun x hx => hpos x (List.mem_filter.mp hx).1⟩
     · simp only [RocksStore.step, Ref.step, hdb, hlast]; exact rocks_truncate_db hsort f
     · simp only [RocksStore.step, Ref.step]; exact (maxKey_below_adjacent hpos hc).symm
   | replace f es =>
-    simp only [appendOnly, contract, Bool.and_eq_true] at hc
+    simp only [contract, Bool.and_eq_true] at hc
     obtain ⟨hasc, hrest⟩ := hc
     cases es with
     | nil =>
@@ -296,7 +281,7 @@ theorem rocks_step_inv {s : RocksStore} {r : Ref} {op : Op} (h : RInv s r) (hc :
         · exact hpos x (List.mem_filter.mp hx).1
         · have := ascFrom_gt ha x hx; omega
   | purge i t =>
-    simp only [appendOnly, contract, Bool.or_eq_true, decide_eq_true_eq] at hc
+    simp only [contract, Bool.or_eq_true, decide_eq_true_eq] at hc
     refine ⟨by simp [RocksStore.step, Ref.step, hdb], ?_, by simp [RocksStore.step, Ref.step], above_sorted hsort i,
       fun x hx => hpos x (List.mem_filter.mp hx).1⟩
     simp only [RocksStore.step, Ref.step, hlast]
@@ -308,5 +293,54 @@ theorem rocks_step_inv {s : RocksStore} {r : Ref} {op : Op} (h : RInv s r) (hc :
   | flush => exact ⟨hdb, hlast, hb, hsort, hpos⟩
   | reopen => exact ⟨hdb, by simp [RocksStore.step, Ref.step, hdb], hb, hsort, hpos⟩
   | crash => exact ⟨hdb, by simp [RocksStore.step, Ref.step, hdb], hb, hsort, hpos⟩
+
+end DEngine.LogStore
+
+namespace DEngine.LogStore
+
+/-! ## File store, in-memory view under the whole contract (re-written / lower indexes included) -/
+
+/-- What a running File store answers from memory. -/
+structure LInv (s : FileStore) (r : Ref) : Prop where
+  entries : s.entries = r.m
+  last : s.last = maxKey r.m
+
+theorem appendAll_entries (es : List Ent) : ∀ (s : FileStore), (es.foldl FileStore.append s).entries = insertAll s.entries es := by
+  induction es with
+  | nil => intro s; rfl
+  | cons e r ih => intro s; simp only [List.foldl_cons, insertAll] at ih ⊢; rw [ih]; rfl
+
+/-- Every op except reopen/crash (which re-read the file) keeps the in-memory view equal to the reference. -/
+theorem file_live_step {s : FileStore} {r : Ref} {op : Op} (h : LInv s r) (hc : contract r op = true)
+    (hno : op ≠ .reopen ∧ op ≠ .crash) : LInv (s.step op) (r.step op) := by
+  obtain ⟨he, hl⟩ := h
+  cases op with
+  | persist es =>
+    cases es with
+    | nil => exact ⟨by simpa [FileStore.step, Ref.step, insertAll] using he, by simpa [FileStore.step, Ref.step, insertAll] using hl⟩
+    | cons e rest =>
+      refine ⟨?_, ?_⟩
+      · have := appendAll_entries (e :: rest) s
+        simp only [FileStore.step, List.isEmpty_cons, Bool.false_eq_true, if_false, Ref.step]
+        rw [this, he]
+      · simp only [FileStore.step, List.isEmpty_cons, Bool.false_eq_true, if_false, Ref.step, hl,
+          batchMax_eq_maxKey, maxKey_insertAll]
+  | truncate f => exact ⟨by simp [FileStore.step, FileStore.cut, Ref.step, he], by simp [FileStore.step, FileStore.cut, Ref.step, he]⟩
+  | replace f es =>
+    have hent : (es.foldl FileStore.append (s.cut f)).entries = insertAll (below r.m f) es := by
+      rw [appendAll_entries]; simp [FileStore.cut, he]
+    exact ⟨by simp only [FileStore.step, Ref.step]; exact hent, by simp only [FileStore.step, Ref.step]; rw [hent]⟩
+  | purge i t =>
+    simp only [contract, Bool.or_eq_true, decide_eq_true_eq] at hc
+    refine ⟨by simp [FileStore.step, Ref.step, he], ?_⟩
+    simp only [FileStore.step, Ref.step, hl]
+    rcases hc with hc | hc
+    · have : r.m = [] := by simpa using hc
+      simp [this, above]
+    · exact (maxKey_above hc).symm
+  | reset => exact ⟨rfl, rfl⟩
+  | flush => exact ⟨he, hl⟩
+  | reopen => exact absurd rfl hno.1
+  | crash => exact absurd rfl hno.2
 
 end DEngine.LogStore
